@@ -158,11 +158,40 @@ type C09Spec struct {
 	// then extended by one cell (the second table learns of the new column, the
 	// first does not: its row is now longer than its column count).
 	TwoTables bool `json:"two_tables,omitempty"`
+	// Cbs: property callbacks the application registers on the table, its
+	// columns, rows and cells at given points of the build (c09_callbacks.go).
+	Cbs []C09Cb `json:"cbs,omitempty"`
 }
 
-// c09Build builds the spec's table through the public API.
-func c09Build(sp C09Spec, t tabular.Table) {
-	sp.Table.Build(t)
+// c09Build builds the spec's table through the public API (with the
+// registrations of sp.Cbs at their turns; only != nil: exactly those that
+// were made on the probe table).
+func c09Build(sp C09Spec, t tabular.Table, only []bool) *c09CbRun {
+	cr := c09BuildHook(sp, t, only, nil)
+	c09TwoTables(sp, t)
+	return cr
+}
+
+// c09BuildHook: the building calls alone, hook called after every body row
+// (when non-nil).
+func c09BuildHook(sp C09Spec, t tabular.Table, only []bool, hook func()) *c09CbRun {
+	if len(sp.Cbs) > 0 {
+		return c09BuildCb(sp.Table, sp.Cbs, only, t, hook)
+	}
+	if hook == nil {
+		sp.Table.Build(t)
+		return nil
+	}
+	every := sp.Table
+	every.Stages = nil
+	for i := range sp.Table.Rows {
+		every.Stages = append(every.Stages, i)
+	}
+	every.BuildStaged(t, hook)
+	return nil
+}
+
+func c09TwoTables(sp C09Spec, t tabular.Table) {
 	if sp.TwoTables {
 		for _, row := range t.AllRows() {
 			if row.IsSeparator() {
@@ -204,7 +233,8 @@ func init() {
 			"plus random tables to 6x5 with text-like items (strings incl. multi-line, trailing newlines, invalid UTF-8; runes; ints; nil; Stringers that declare a height and/or width disagreeing with their text, negative and zero included); " +
 			"a second, shorter or empty header; tables reaching 9..47 columns by the header, by one row or cell by cell; fields of 15..129 escapable characters; a row also attached to a second table and then extended (longer than the column count); " +
 			"each table is rendered under recover() by csv, html, json, markdown, texttable with every registered decoration, auto.Render for every listed style and an unknown style - on a fresh table each, on ONE table under every target twice (a third of the cases), and (a quarter) through ONE wrapper per target made around the empty table and rendered after every row, before and after a second AddHeaders, and after up to 3 further widenings (header extended by one name, a wider row, an attached row extended); " +
-			"a case is one table with all its renders; non-trivial when the table has at least one column; distinct = distinct (view, outcome classes)",
+			"tables carrying property callbacks of the application (228 cases in the quick tier): registered on the table, a wrapper standing for it, columns (0 included), rows (separators included), cells and header cells, for add time and the three render times, aimed at the owner itself / its cells / its rows, before, between and after the building calls; the registered values are of 14 Go types, comparable and not (empty struct, pointer, struct value, function behind an adapter type, structs holding a slice / a map / a func / an interface holding a slice, named slice / map / array-of-func / string / chan types, a struct holding NaN) - for every type x every time two callbacks of the type in every list of a small table at once; three of a type plus the very same value again in the per-cell lists; one of every type in one list; random tables (items of uncomparable types included) with 1-12 random registrations; a callback logs, then sets a property (values of comparable and uncomparable types), reads its target, aligns its column, or returns an error (of a comparable or an uncomparable type); the build is also shipped as a history of the callback machine (Model/Callbacks.v) whose refusals, add-time log and one-pass render log must equal the logs of the real build and of every render; " +
+			"a case is one table with all its renders; non-trivial when the table has at least one column; distinct = distinct (view, outcome classes, callback history)",
 		Exhaustive: "shapes (header x row-sequence up to length 3, each row by each building method) x all renderers and styles",
 		Gen: func(r *RNG, tier string) []json.RawMessage {
 			var out []json.RawMessage
@@ -286,16 +316,45 @@ func init() {
 				enrichSpec(r, &ts, c09Item)
 				add(ts)
 			}
+			// tables carrying property callbacks of the application (c09_callbacks.go)
+			for _, sp := range c09GenCallbacks(r, tier) {
+				out = append(out, mustJSON(sp))
+			}
 			return out
 		},
 		Run: func(spec json.RawMessage) CaseOut {
 			sp := c09Parse(spec)
 			ts := sp.Table
 			probe := tabular.New()
-			if o := capture(func() (string, error) { c09Build(sp, probe); return "", nil }); o.Kind == "panic" {
+			var probeCbs *c09CbRun
+			c09CbLog = nil
+			if o := capture(func() (string, error) { probeCbs = c09Build(sp, probe, nil); return "", nil }); o.Kind == "panic" {
+				if len(sp.Cbs) > 0 {
+					// registering a callback, or running the add-time callbacks, panicked where the callback
+					// machine of the model runs through: the case is set aside as a broken correspondence
+					panic("building a table with registered callbacks panicked: " + o.Panic)
+				}
 				// the building calls themselves panicked: there is no table to render (not this property's concern)
-				return CaseOut{Coq: "(mkView 0%nat None [] [None] [None], [], None)", Desc: map[string]interface{}{"skipped": "build panicked: " + o.Panic},
+				return CaseOut{Coq: "(mkView 0%nat None [] [None] [None], [], None, None)", Desc: map[string]interface{}{"skipped": "build panicked: " + o.Panic},
 					Size: ts.Size(), Tags: []string{"skipped=build-panicked"}, Key: string(spec), Nontrivial: false}
+			}
+			addLog := append([]int{}, c09CbLog...)
+			var only []bool
+			if probeCbs != nil {
+				only = probeCbs.Applied
+			}
+			// the distinct render-time logs of the judged renders, each with an outcome class that produced it
+			var traces []string
+			traceSeen := map[string]bool{}
+			noteTrace := func(kind int) {
+				if probeCbs == nil {
+					return
+				}
+				term := fmt.Sprintf("(%s, %s)", cqNat(kind), cqNats(c09CbLog))
+				if !traceSeen[term] {
+					traceSeen[term] = true
+					traces = append(traces, term)
+				}
 			}
 			var view View
 			readBack := true
@@ -316,7 +375,7 @@ func init() {
 			var shared tabular.Table
 			if sp.Shared {
 				shared = tabular.New()
-				c09Build(sp, shared)
+				c09Build(sp, shared, only)
 				// a first round over every target on the same table; the second round is the one judged
 				order := make([]int, len(targets))
 				for i := range order {
@@ -336,13 +395,15 @@ func init() {
 				t := shared
 				if t == nil {
 					t = tabular.New() // fresh table per render
-					c09Build(sp, t)
+					c09Build(sp, t, only)
 				}
+				c09CbLog = nil
 				o := capture(func() (string, error) { return tg.Render(t) })
 				if tg.Code == 0 {
 					csvOut = o
 				}
 				kind := map[string]int{"ok": 0, "err": 1, "panic": 2}[o.Kind]
+				noteTrace(kind)
 				classes += fmt.Sprint(kind)
 				s := o.Out
 				if kind == 0 && tg.Code != 0 {
@@ -359,11 +420,6 @@ func init() {
 				}
 			}
 			if sp.Staged {
-				every := ts
-				every.Stages = nil
-				for i := range ts.Rows {
-					every.Stages = append(every.Stages, i)
-				}
 				for _, tg := range targets {
 					tg := tg
 					t := tabular.New()
@@ -390,7 +446,7 @@ func init() {
 						}
 					}
 					stage()
-					every.BuildStaged(t, stage)
+					c09BuildHook(sp, t, only, stage)
 					stage()
 					// the table keeps growing under the same wrapper: the header is
 					// extended (same leading names, one more), a wider row arrives,
@@ -433,6 +489,37 @@ func init() {
 					tags = append(tags, "pipeline-case")
 				}
 			}
+			cbTerm := "None"
+			cbKey := ""
+			if probeCbs != nil {
+				tags = append(tags, "callbacks-registered")
+				perList := map[string]int{}
+				for i, cb := range probeCbs.cbs {
+					if !probeCbs.Applied[i] || probeCbs.Refused[i] {
+						continue
+					}
+					tags = append(tags, "callback-type="+cb.Kind)
+					ow := cb.Owner
+					if ow == "wrapper" {
+						ow = "table"
+					}
+					perList[fmt.Sprintf("%s/%d/%d/%d/%d/%d/%s", ow, cb.Row, cb.Col, cb.Time, cb.Target, 0, cb.Kind)]++
+				}
+				for _, n := range perList {
+					if n >= 2 {
+						tags = append(tags, "several-callbacks-of-one-type-in-one-list")
+						break
+					}
+				}
+				tags = dedup(tags)
+				if !sp.TwoTables {
+					if ops, refused, ok := c09CbHistory(ts, probeCbs); ok {
+						cbTerm = cqSome(fmt.Sprintf("(%s, %s, %s, %s)", cqList(ops), cqList(refused), cqNats(addLog), cqList(traces)))
+						cbKey = cqList(ops)
+						tags = append(tags, "callback-machine-case")
+					}
+				}
+			}
 			if sp.Staged {
 				tags = append(tags, "long-lived-wrappers")
 			}
@@ -452,31 +539,41 @@ func init() {
 				}
 			}
 			return CaseOut{
-				Coq:        "(" + vc + ", " + cqList(outs) + ", " + pipe + ")",
+				Coq:        "(" + vc + ", " + cqList(outs) + ", " + pipe + ", " + cbTerm + ")",
 				Desc:       map[string]interface{}{"failing_shown": bads, "outcome_classes": classes, "sig": sig},
-				Size:       ts.Size(),
+				Size:       ts.Size() + c09CbsSize(sp.Cbs),
 				Tags:       tags,
-				Key:        vc + classes,
+				Key:        vc + classes + cbKey,
 				Nontrivial: view.NCols > 0,
 			}
 		},
 		Shrink: func(spec json.RawMessage) []json.RawMessage {
 			sp := c09Parse(spec)
 			var out []json.RawMessage
-			for _, c := range shrinkTable(sp.Table) {
-				out = append(out, mustJSON(C09Spec{Table: c, Shared: sp.Shared, Perm: sp.Perm, Staged: sp.Staged, Grow: sp.Grow, TwoTables: sp.TwoTables}))
+			with := func(f func(c *C09Spec)) {
+				c := sp
+				f(&c)
+				out = append(out, mustJSON(c))
+			}
+			for _, cbs := range c09ShrinkCbs(sp.Cbs) {
+				cbs := cbs
+				with(func(c *C09Spec) { c.Cbs = cbs })
+			}
+			for _, t := range shrinkTable(sp.Table) {
+				t := t
+				with(func(c *C09Spec) { c.Table = t })
 			}
 			if sp.Shared {
-				out = append(out, mustJSON(C09Spec{Table: sp.Table, Staged: sp.Staged, Grow: sp.Grow, TwoTables: sp.TwoTables}))
+				with(func(c *C09Spec) { c.Shared, c.Perm = false, 0 })
 			}
 			if sp.Staged {
-				out = append(out, mustJSON(C09Spec{Table: sp.Table, Shared: sp.Shared, Perm: sp.Perm, TwoTables: sp.TwoTables}))
+				with(func(c *C09Spec) { c.Staged, c.Grow = false, 0 })
 				if sp.Grow > 0 {
-					out = append(out, mustJSON(C09Spec{Table: sp.Table, Shared: sp.Shared, Perm: sp.Perm, Staged: true, Grow: sp.Grow - 1, TwoTables: sp.TwoTables}))
+					with(func(c *C09Spec) { c.Grow-- })
 				}
 			}
 			if sp.TwoTables {
-				out = append(out, mustJSON(C09Spec{Table: sp.Table, Shared: sp.Shared, Perm: sp.Perm, Staged: sp.Staged, Grow: sp.Grow}))
+				with(func(c *C09Spec) { c.TwoTables = false })
 			}
 			return out
 		},
